@@ -252,8 +252,18 @@ class StartStageHandler(
                 has_tasks = len(stage.tasks) > 0
                 synthetic_stages = self.repository.get_synthetic_stages(stage.execution.id, stage.id)
                 has_synthetic = synthetic_stages is not None and len(synthetic_stages) > 0
+                # The plan commit records "_planned". A stage that was claimed
+                # but whose plan commit never happened (the claimer died in
+                # between) lacks it and none of its tasks has started: tasks
+                # declared with the workflow make it look planned, but it never
+                # received its ancestors' outputs nor its before-stages.
+                claimed_not_planned = (
+                    stage.start_time is not None  # set by the claim commit
+                    and not stage.context.get("_planned")
+                    and all(t.status == WorkflowStatus.NOT_STARTED for t in stage.tasks)
+                )
 
-                if not has_tasks and not has_synthetic:
+                if (not has_tasks and not has_synthetic) or claimed_not_planned:
                     logger.warning(
                         "Detected Zombie Stage %s (%s): RUNNING but no tasks/synthetic stages. Resuming planning.",
                         stage.name,
@@ -518,6 +528,10 @@ class StartStageHandler(
             )
             raise
 
+        # Durable evidence that planning happened (see the zombie detection
+        # above and WorkflowRecovery); cleared when the stage is re-armed.
+        stage.context["_planned"] = True
+
         # Collect messages to push BEFORE starting the transaction
         messages_to_push = self._collect_start_messages(stage, message, planned_before_stages)
 
@@ -565,7 +579,7 @@ class StartStageHandler(
                         fresh.status,
                     )
                     return
-                if not had_tasks_before_planning and fresh.tasks:
+                if fresh.context.get("_planned") or (not had_tasks_before_planning and fresh.tasks):
                     # Another worker took the stage over as a zombie (claimed, no
                     # tasks yet) and committed its own plan: that plan stands.
                     logger.debug(
